@@ -13,12 +13,20 @@ CLAIMS = {
              note='SC only; reader spin-wait loops beyond U iterations excluded (blocking by design for slots==1)', ref='4 C14'),
  'C15': dict(text='Bounded, solver-decided: marked_ptr round trip for every mark width 0..32 and three upper/lower splits over all 64-bit pointer/mark values (one query); symbolic sequences of guard operations vs a reference model for hazard_pointer, hazard_eras, epoch based and lock_free_ref_count (all twelve configurations in thorough).',
              note='sequence length 3 (quick) / 4 (thorough); single thread; the concurrent snapshot clause is exercised by C01 scenarios', ref='4 C15'),
+ 'C02': dict(text='Bounded, solver-decided for hazard_pointer: two threads retire nodes with stateful custom deleters (one node guarded by the other thread), exit (thread-local destructors and hand-over of pending nodes run inside the model), a later generation flushes; census: each retired node destroyed exactly once by its own deleter. Other schemes and a cross-guard variant in the thorough tier.',
+             note='2 threads + flushing generation, K=2; SC only; std algorithm stubs; the cross-guard variant currently ends inconclusive (ENGINE-FAULT, DESIGN.md 10.5)', ref='10.2 C02'),
+ 'C04': dict(text='Bounded, solver-decided for michael_scott_queue (reclaimer lock_free_ref_count): producer/consumer interleavings with K=2-3 rounds of solver-chosen context switches; conservation, no duplication, FIFO order, legality of empty. ramalhete_queue / nikolaev_queue are attempted only in the thorough tier with 1 push || 1 pop (larger scenarios exceed the solver budget).',
+             note='partial: one of the three queues in the quick tier; <= 2 operations per thread; SC only', ref='10.2 C04'),
+ 'C07': dict(text='Bounded, solver-decided census of owning elements (non-trivial token, unique_ptr) for vyukov_bounded_queue and michael_scott_queue (quick) and nikolaev_bounded_queue (thorough): two producers + consumer with symbolic context switches, then queue destruction: handed out XOR destroyed exactly once; rejected values stay with the caller or are destroyed once with a by-value parameter.',
+             note='partial: ramalhete_queue (finding F4) and nikolaev_queue are beyond the solver budget; K=2-3; SC only', ref='10.2 C07'),
  'C05': dict(text='Bounded, solver-decided: symbolic push/pop sequences from several ring rotations vs a bounded FIFO reference (vyukov: 4 ops, nikolaev: 2-3 ops); producer/consumer interleavings with conservation, order and legality of empty/full.',
              note='capacity 2 (4 in thorough); 2 threads; vyukov strong operations spin while another operation is in flight (beyond U spins outside the bound); SC only', ref='4 C05'),
  'C06': dict(text='Bounded, solver-decided for kirsch_bounded_kfifo_queue (and the unbounded queue with hazard pointers in thorough): the random start index is a solver variable; symbolic sequences vs a k-FIFO reference; producer/consumer interleavings incl. the wrapped head/tail state.',
              note='k in {1,2}, 2-3 segments; 2 threads, K=2-3; products above 2^16 are outside the bound (finding F11 is documented in DESIGN.md, not decided by a check)', ref='4 C06'),
  'C13': dict(text='Bounded, solver-decided: writer with back-to-back updates vs 1-2 readers, all context switch positions symbolic (K=2..4): no mixed snapshot, monotone reads, both instances updated exactly once.',
              note='std::mutex as blocking flag; wait loops beyond U spins outside the bound; SC only', ref='4 C13'),
+ 'C16': dict(text='Bounded, solver-decided progress obligations: a disturber thread may be stopped at ANY memory access (free final switch point); the observed operation must finish within U loop iterations (reachability of its unwinding flags is posed to the solver). Michael-Scott queue, Kirsch bounded k-FIFO, deque steal, seqlock(slots=2) load, left_right read, hazard pointer guard acquire; sequential instance: vyukov_hash_map::try_get_value among colliding non-trivial keys.',
+             note='2 threads, K=2 (3 in thorough), U=3-8; blocking operations excluded as documented', ref='10.2 C16'),
  'C18': dict(text='Bounded, solver-decided: symbolic guard-operation sequences against slot accounting invariants for static/dynamic hazard_pointer and hazard_eras incl. exhaustion (exceptions are modelled) and slot reuse.',
              note='K in {1,2,3}; 3 guards; sequence length 2-4; protection = published slot (representation invariant), scans honouring slots is C01', ref='4 C18'),
 }
